@@ -169,12 +169,25 @@ def disjointNames (a b : List String) : Bool := a.all (fun x => !b.contains x)
 
 def freeNamesB (e : VExpr) : List String := (freeAxes e).map (·.1)
 
-/-- The condition on one `used` event alone. -/
+/-- the filter of `cse` (`_value_range(...) is not None and not _has_repeated_axis(...)`) on what is replaced -/
+def Rep (e : VExpr) : Prop := (valueRange e).isSome = true ∧ hasRepeatedAxis e = false
+
+/-- Every replacement passed the filter and replaces at least one node.  *Proved for every input*
+(`filt_cseEvents`, Proofs/CseTreesFilter.lean) — not part of the side conditions. -/
+def FiltOK : Ev → Prop
+  | .surv _ _ => True
+  | .used _ e len _ => 0 < len ∧ Rep e
+
+/-- decidable form of `FiltOK` (reported by the driver as a sanity check of the model) -/
+def filtOKb : Ev → Bool
+  | .surv _ _ => true
+  | .used _ e len _ => decide (0 < len) && (valueRange e).isSome && !hasRepeatedAxis e
+
+/-- The condition on one `used` event alone (beyond `FiltOK`). -/
 def usedOK : Ev → Bool
   | .surv _ _ => true
-  | .used _ e len atRoot =>
-    decide (0 < len) &&
-    (valueRange e).isSome && !hasRepeatedAxis e && (freeAxes e).all (fun p => decide (1 ≤ p.2)) &&   -- filter of `cse`
+  | .used _ e _ atRoot =>
+    (freeAxes e).all (fun p => decide (1 ≤ p.2)) &&                  -- lower bounds are positive (`min_value >= 1`)
     ((valueOf e).isSome || (valueRange e).any (fun r => r.2)) &&    -- an unknown value has an unbounded range
     (!atRoot || ndim e == 1)                                        -- the number of dimensions of a root is kept
 
